@@ -541,7 +541,8 @@ static CMR_ERROR CMRintmatComputeUpperDiagonalGMP(CMR* cmr, CMR_INTMAT* matrix, 
     if (error == CMR_OKAY)
       CMR_CALL( CMRintmatSortNonzeros(cmr, result) );
 
-    if (ptranspose)
+    /* In case of an overflow the result is only partially filled. */
+    if (ptranspose && (error == CMR_OKAY))
       CMR_CALL( CMRintmatTranspose(cmr, result, ptranspose) );
 
     if (presult)
@@ -621,7 +622,7 @@ CMR_ERROR CMRintmatComputeUpperDiagonal(CMR* cmr, CMR_INTMAT* matrix, bool inver
   }
 
   *prank = 0;
-  while (*prank < maxRank)
+  while (*prank < maxRank && !isIntTooSmall)
   {
     /* TODO: maintain smallest elements instead of searching for them. */
 
@@ -858,6 +859,12 @@ CMR_ERROR CMRintmatComputeUpperDiagonal(CMR* cmr, CMR_INTMAT* matrix, bool inver
         int64_t p_new = U_11 * p_old;
         int64_t o_new = U_21 * p_old;
 
+        if (llabs(p_new) > INT32_MAX || llabs(o_new) > INT32_MAX)
+        {
+          isIntTooSmall = true;
+          break;
+        }
+
         densePivot[column] = p_new;
         ptrdiff_t memoryShift;
         CMRdbgMsg(8, "Inserting into other row %ld in column %ld. Value is %ld\n", otherRow, column, o_new);
@@ -942,7 +949,7 @@ CMR_ERROR CMRintmatComputeUpperDiagonal(CMR* cmr, CMR_INTMAT* matrix, bool inver
 
   if (isIntTooSmall)
   {
-    CMR_CALL( CMRintmatComputeUpperDiagonalGMP(cmr, matrix, invert, prank, *ppermutations, presult, ptranspose) );
+    CMR_CALL( CMRintmatComputeUpperDiagonalGMP(cmr, matrix, invert, prank, permutations, presult, ptranspose) );
     isIntTooSmall = false;
   }
 
